@@ -173,7 +173,7 @@ func init() {
 	})
 	// c.converge: wait until every live member's membership layer and routing service list exactly the live members
 	register("c.converge", func(a []string) string {
-		deadline := time.Now().Add(15 * time.Second)
+		deadline := time.Now().Add(60 * time.Second)
 		for {
 			want := 0
 			for _, m := range cl.members {
